@@ -383,11 +383,13 @@ theorem stageList_false_map {W' : Type} (L : List Nat) (φ : Nat → W') :
 section rehouse
 variable [DecidableEq V] {c : Cfg} {vc : VCfg V} {s : State V}
 
-/-- corrected `rehouse_spec`: needs "invalid cells hold the sentinel" -/
-theorem Inv.rehouse_partial' (h : Inv c vc s) (hv : vc.valid vc.sentinel = false)
-    (hs : ∀ x, vc.valid x = false → x = vc.sentinel) (cNew : Cfg) (hn : cNew.npix = c.npix) :
+/-- re-housing never raises, yields a well-formed map, copies every valid pixel and leaves the
+    sentinel everywhere else -/
+theorem Inv.rehouse_abs' (h : Inv c vc s) (hv : vc.valid vc.sentinel = false)
+    (cNew : Cfg) (hn : cNew.npix = c.npix) :
     ∃ s', rehouseMap c cNew vc s = some s' ∧ Inv cNew vc s' ∧
-      ∀ p, p < c.npix → abs cNew vc s' p = abs c vc s p := by
+      ∀ p, p < c.npix → abs cNew vc s' p =
+        if vc.valid (abs c vc s p) = true then abs c vc s p else vc.sentinel := by
   unfold rehouseMap
   rw [h.validPixels_eq hv]
   simp only [Option.map_some]
@@ -423,16 +425,47 @@ theorem Inv.rehouse_partial' (h : Inv c vc s) (hv : vc.valid vc.sentinel = false
   simp only [Bool.false_and, Bool.false_eq_true, if_false]
   rw [denseFold_nodup _ L (fun p => some (abs c vc s p)) hnd, makeEmpty_abs']
   by_cases hp' : p ∈ L
-  · rw [if_pos hp']
+  · rw [if_pos hp', if_pos ((hmem p).1 hp').2]
     rfl
-  · rw [if_neg hp']
-    have : vc.valid (abs c vc s p) = false := by
-      cases hval : vc.valid (abs c vc s p) with
-      | false => rfl
-      | true => exact absurd ((hmem p).2 ⟨hp, hval⟩) hp'
-    exact (hs _ this).symm
+  · rw [if_neg hp', if_neg (fun hval => hp' ((hmem p).2 ⟨hp, hval⟩))]
+
+/-- `rehouse_spec`: valid pixels keep their value, invalid pixels stay invalid -/
+theorem Inv.rehouse_spec' (h : Inv c vc s) (hv : vc.valid vc.sentinel = false)
+    (cNew : Cfg) (hn : cNew.npix = c.npix) :
+    ∃ s', rehouseMap c cNew vc s = some s' ∧ Inv cNew vc s' ∧
+      ∀ p, p < c.npix → vc.valid (abs cNew vc s' p) = vc.valid (abs c vc s p) ∧
+        (vc.valid (abs c vc s p) = true → abs cNew vc s' p = abs c vc s p) := by
+  obtain ⟨s', h1, h2, h3⟩ := h.rehouse_abs' hv cNew hn
+  refine ⟨s', h1, h2, ?_⟩
+  intro p hp
+  rw [h3 p hp]
+  cases hval : vc.valid (abs c vc s p) with
+  | true => exact ⟨by rw [if_pos rfl]; exact hval, fun _ => if_pos rfl⟩
+  | false => exact ⟨by rw [if_neg Bool.false_ne_true]; exact hv, fun hc => nomatch hc⟩
+
+/-- value-equality form of `rehouse_spec`: needs "invalid cells hold the sentinel" -/
+theorem Inv.rehouse_partial' (h : Inv c vc s) (hv : vc.valid vc.sentinel = false)
+    (hs : ∀ x, vc.valid x = false → x = vc.sentinel) (cNew : Cfg) (hn : cNew.npix = c.npix) :
+    ∃ s', rehouseMap c cNew vc s = some s' ∧ Inv cNew vc s' ∧
+      ∀ p, p < c.npix → abs cNew vc s' p = abs c vc s p := by
+  obtain ⟨s', h1, h2, h3⟩ := h.rehouse_abs' hv cNew hn
+  refine ⟨s', h1, h2, ?_⟩
+  intro p hp
+  rw [h3 p hp]
+  cases hval : vc.valid (abs c vc s p) with
+  | true => exact if_pos rfl
+  | false => rw [if_neg Bool.false_ne_true]; exact (hs _ hval).symm
 
 end rehouse
+
+/-! ### a state showing that re-housing does not preserve the VALUE of invalid cells -/
+
+/-- one coverage pixel, one sparse pixel per coverage pixel -/
+def rehouseWitnessCfg : Cfg := ⟨1, 0⟩
+/-- validity is "positive", the sentinel is `-1`: `0` is invalid but not the sentinel -/
+def rehouseWitnessVC : VCfg Int := ⟨-1, fun x => decide (x > 0)⟩
+/-- a well-formed map whose only pixel holds the invalid non-sentinel value `0` -/
+def rehouseWitnessState : State Int := ⟨#[1], #[-1, 0]⟩
 
 /-! ### upgrade -/
 
